@@ -167,6 +167,15 @@ func (e InvalidAllotmentSum) Error() string {
 	return fmt.Sprintf("Invalid allotment: portions sum should be 1 (got %s instead)", e.ActualSum.String())
 }
 
+type DivideByZero struct {
+	parser.Range
+	Numerator *big.Int
+}
+
+func (e DivideByZero) Error() string {
+	return fmt.Sprintf("cannot divide by zero (in %s/0)", e.Numerator.String())
+}
+
 type QueryBalanceError struct {
 	parser.Range
 	WrappedError error
